@@ -112,7 +112,7 @@ def check_C13(chk, tier, seed):
     ports = [":3868", ":0", "", ":", ":abc", ":1:2", ":[", ":]", "]:5", "[:6"]
     addrs = [h + p for h in hosts for p in ports]
     r = rng.fork("addr")
-    alphabet = ["[", "]", ":", "a", "1", ".", "\u00e9", "%"]
+    alphabet = ["[", "]", ":", "a", "1", ".", "\u00e9", "%", ","]
     for _ in range(400 if tier == "quick" else 20000):
         addrs.append("".join(r.choice(alphabet) for _ in range(r.range(0, 9))))
     dcases = [f"TLSDOMAIN {xb(a.encode())}" for a in addrs]
